@@ -12,7 +12,7 @@ Random long behaviours of a larger configuration (TLC -simulate) go through the 
 Part 2 (Merkle tree): Merkle.tla - TLC checks root/proof invariants of the transcribed queue construction for
 all leaf lists up to N over a free hash; the real functions are evaluated on every one of those lists plus a
 seeded grid of longer lists and validated by TraceMerkle.tla over the real Keccak256 as an oracle."""
-import json, re
+import json, os, re
 LEVEL = "model_checking"
 
 MANIFEST = dict(
@@ -41,6 +41,50 @@ def Broken(msg):
     return __import__("vlib").Broken(msg)
 
 
+def digest(files, out):
+    """Restate the <<kind, keys, reads, root>> observations of (accepted) trace files as rootobs lines, once each."""
+    seen = set()
+    with open(out, "w") as fh:
+        for f in files:
+            kind = keys = None
+            for ln in open(f):
+                e = json.loads(ln)
+                if e["ev"] == "reset":
+                    kind, keys = e["kind"], e["keys"]
+                k = (kind, tuple(keys), tuple(e["reads"]), e["root"])
+                if k not in seen:
+                    seen.add(k)
+                    fh.write(json.dumps(dict(ev="rootobs", beh=0, step=0, kind=kind, keys=keys, reads=e["reads"], root=e["root"])) + "\n")
+    return len(seen)
+
+
+def validate_trie(ctx, files, what):
+    """One TLC run when the trace is small enough, otherwise chunks (bounded memory) + one run over the chunks' root observations."""
+    lines = sum(1 for f in files for _ in open(f))
+    limit = int(os.environ.get("VERIF_C17_MAXLINES", "250000"))      # one TLC process holds the whole trace in memory
+    if lines <= limit:
+        return ctx.validate("TraceTrieKV", "TraceTrieKV.cfg", files, what=what, timeout=3000)
+    chunks, cur, n = [], [], 0
+    for f in files:
+        k = sum(1 for _ in open(f))
+        if cur and n + k > limit * 5 // 8:
+            chunks.append(cur)
+            cur, n = [], 0
+        cur.append(f)
+        n += k
+    if cur:
+        chunks.append(cur)
+    ok = True
+    for i, ch in enumerate(chunks):
+        ok = ctx.validate("TraceTrieKV", "TraceTrieKV.cfg", ch, what="%s, chunk %d/%d" % (what, i + 1, len(chunks)), timeout=3000) and ok
+    if not ok:
+        return False
+    dg = ctx.path("traces", "rootobs.ndjson")
+    n = digest(files, dg)
+    ctx.extra["root_observations_validated_across_chunks"] = n
+    return ctx.validate("TraceTrieKV", "TraceTrieKV.cfg", [dg], what="root observations of all chunks", timeout=3000, count_behaviours=False)
+
+
 def run(ctx):
     ctx.build()
     quick = ctx.quick()
@@ -56,20 +100,22 @@ def run(ctx):
     if neg["inv"] not in ("InsertKeepsCanonical", "DeleteKeepsCanonical"):
         raise Broken("negative control: delete without normalisation should violate Insert/DeleteKeepsCanonical, got %s" % neg["inv"])
     files, summ = ctx.replay("triekv", graph=dot, shards=16, maxlen=300, timeout=1800)
+    efiles = []
+    if not quick:
+        # edge universe: the empty key (strict prefix of every key), 1234, 1235, 12 with three value sizes
+        edot = ctx.path("triekv-edge.dot")
+        ctx.tlc_exhaustive("MCTrieKV", "MCTrieKV_edge.cfg", timeout=1200, dump=edot)
+        efiles, esumm = ctx.replay("triekv", graph=edot, shards=16, maxlen=300, name="triekv-edge", timeout=1800)
+        ctx.extra["edge_transitions_in_graph"] = esumm["graph_edges"]
     # random long behaviours of the larger configuration (3 value sizes, older roots reopened, cache limit 120)
     nsim, depth = (300, 80) if quick else (4000, 100)
     sim = ctx.tlc_simulate("MCTrieKV", "MCTrieKV_sim.cfg", nsim, depth, "triekv", timeout=1200)
-    # engine work-around (tla.LoadSim cuts the label at the LAST " line ", TLC prints "line a, col b to line c, col d"):
-    import glob
-    for f in glob.glob(sim):
-        txt = open(f).read()
-        open(f, "w").write(re.sub(r"(?m)^(\\\* <.*?) line \d+, col \d+ to line \d+, col \d+ of module \w+>$", r"\1 line 0>", txt))
     sfiles, ssumm = ctx.replay("triekv", sim=sim, shards=16, name="triekv-sim", timeout=1800)
     # one validation run over everything: the root history (content <-> root) spans all paths
-    ok = ctx.validate("TraceTrieKV", "TraceTrieKV.cfg", files + sfiles, what="state-graph tour + simulated behaviours", timeout=3000)
+    ok = validate_trie(ctx, files + efiles + sfiles, "state-graph tour(s) + simulated behaviours")
     ctx.extra["distinct_transitions_replayed"] = summ["graph_edges"] if ok else 0
     ctx.extra["transitions_in_graph"] = summ["graph_edges"]
-    ctx.cov["samples"] = summ["samples"][:2] + ssumm["samples"][:1]
+    ctx.cov["samples"] = [x[:14] for x in summ["samples"][:2] + ssumm["samples"][:1]]
     for need in ("Put", "Remove", "Get", "Hash", "Commit", "Reopen", "ProveAll"):
         if not summ["action_counts"].get(need):
             raise Broken("replay never performed %s" % need)
@@ -84,13 +130,13 @@ def run(ctx):
     mok = ctx.validate("TraceMerkle", "TraceMerkle.cfg", mfiles + [grid], what="all leaf lists of the graph + seeded grid", timeout=1800)
     ctx.extra["merkle_lists_in_graph"] = msumm["graph_nodes"]
     ctx.extra["merkle_grid_rows"] = rows if mok else 0
-    ctx.cov["samples"] += msumm["samples"][:1]
+    ctx.cov["samples"] += [x[:10] for x in msumm["samples"][:1]]
     ctx.cov["exhaustive"] = True
     ctx.extra["bounds"] = dict(triekv_graph=open(ctx.specdir + "/" + cfg).read(), triekv_sim=open(ctx.specdir + "/MCTrieKV_sim.cfg").read(),
                                merkle=open(ctx.specdir + "/" + mcfg).read(), sim_behaviours=nsim, sim_depth=depth)
     ctx.assumptions += [
         "Keccak256 is collision free on the values that occur (free hash in the design models; 'a value outside the oracle table stays outside' in TraceMerkle)",
-        "key universe: byte keys 1234 1235 1245 12 1334 7234 (plain Trie; 12 is a strict prefix) and six preimages whose Keccak hashes share 3/2/2/1/0 "
+        "key universe: byte keys 1234 1235 1245 12 1334 7234 and the empty key (plain Trie; 12 and the empty key are strict prefixes) and six preimages whose Keccak hashes share 3/2/2/1/0 "
         "leading nibbles (SecureTrie); values of 1, 27 and 40 bytes",
         "Merkle leaves are 32-byte hashes that are not themselves hashes of two tree nodes",
         "one trie object per TrieDatabase at a time; TrieDatabase.Reference/Dereference are not called (as in the project)"]
